@@ -18,7 +18,14 @@ connection's command channel, exactly as `src/transport/tcp/connection.rs` and
 * the opening permit, plus the lifetime permit `substream.keep_alive.then(|| opening_permit.clone())`,
   inside a `SubstreamOpened` message in flight (`Stage.queued`);
 * the lifetime permit of a substream the protocol holds (`Stage.held`), if its protocol is
-  `SubstreamKeepAlive::Yes`.
+  `SubstreamKeepAlive::Yes`. The permit is a field of the substream OBJECT (`tcp::Substream::_lifetime_permit`):
+  it lives until the object is dropped. Shutting down the write half (`Sink::poll_close` /
+  `AsyncWrite::poll_shutdown`, `Stage.heldHalf`) does not release it — a half-closed substream on which the
+  protocol still reads the reply keeps the connection like any other.
+
+* while `report_connection_established` is suspended on a full channel (inside `TcpTransport::accept`, before the
+  loop exists, `Model/Conn/Accept.lean`): its local `connection_handle` and the clone inside every pending send — a
+  protocol that was already told can upgrade its handle and send commands meanwhile.
 
 `idleExit` (`protocol_set.next()` yields `None`) is enabled iff no strong sender is left and no command
 is queued; `accept` without a strong sender is the no-permit exit. `tokio::select!` picks any ready
@@ -39,6 +46,8 @@ inductive Stage
   | queued
   /-- the protocol holds the substream -/
   | held
+  /-- the protocol holds the substream and has shut down its write half (`poll_close` / `poll_shutdown`) -/
+  | heldHalf
   /-- failed, dropped, or lost with the connection task / the protocol's receiver -/
   | gone
   deriving DecidableEq, Repr
@@ -79,6 +88,7 @@ def Sub.permits (ka : List Bool) (x : Sub) : Nat :=
   | .negotiating => 1
   | .queued => 1 + (if kaOf ka x.proto then 1 else 0)
   | .held => if kaOf ka x.proto then 1 else 0
+  | .heldHalf => if kaOf ka x.proto then 1 else 0
   | .gone => 0
 
 def Cmd.permits : Cmd → Nat
@@ -93,7 +103,12 @@ def HandleSt.strong : HandleSt → Nat
 def TLoop.strong (s : TLoop) : Nat :=
   (s.handles.map HandleSt.strong).sum + (s.cmdQ.map Cmd.permits).sum +
   (s.subs.map (Sub.permits s.ka)).sum +
-  (s.loop.ps.chans.map fun c => c.queue.count .established).sum
+  (s.loop.ps.chans.map fun c => c.queue.count .established).sum +
+  -- `report_connection_established` suspended on a full channel (only inside `TcpTransport::accept`, before the
+  -- loop exists): its local `connection_handle` and the clone inside every pending send are strong
+  (match s.loop.ps.call with
+    | .protoSends .established w _ => w.length + 1
+    | _ => 0)
 
 /-- The loop is at its `select!` (not returned, not suspended inside a report call). -/
 def TLoop.running (s : TLoop) : Bool := s.loop.exited.isNone && s.loop.cont.isNone
@@ -153,6 +168,11 @@ inductive TLabel
   | forceClose (i : Nat)
   /-- protocol `i` drops the oldest substream it holds -/
   | dropSub (i : Nat)
+  /-- protocol `i` shuts down the write half of the oldest substream it holds and keeps the object -/
+  | halfClose (i : Nat)
+  /-- somebody else's messages fill protocol `i`'s channel / the manager's channel -/
+  | fill (i : Nat)
+  | fillMgr
   /-- protocol `i` shuts down: receiver, handle and substreams go away -/
   | dropRx (i : Nat)
   deriving DecidableEq, Repr
@@ -244,13 +264,26 @@ def tstep (s : TLoop) : TLabel → TLoop
   | .forceClose i =>
     if canSend s i && s.loop.exited.isNone then { s with cmdQ := s.cmdQ ++ [.forceClose] } else s
   | .dropSub i =>
-    match firstAt s.subs i .held with
+    -- the oldest substream held: `halfClose` acts on the oldest one too, so a half-closed one comes first
+    match firstAt s.subs i .heldHalf with
     | some k => { s with subs := setStage s.subs k .gone }
-    | none => s
+    | none =>
+      match firstAt s.subs i .held with
+      | some k => { s with subs := setStage s.subs k .gone }
+      | none => s
+  | .halfClose i =>
+    match firstAt s.subs i .heldHalf with
+    | some _ => s
+    | none =>
+      match firstAt s.subs i .held with
+      | some k => { s with subs := setStage s.subs k .heldHalf }
+      | none => s
+  | .fill i => cleanup { s with loop := estep s (.fill i) }
+  | .fillMgr => cleanup { s with loop := estep s .fillMgr }
   | .dropRx i =>
     cleanup { s with loop := estep s (.drop i), handles := s.handles.set i .dropped,
                      subs := s.subs.map fun x =>
-                       if x.proto = some i ∧ (x.stage = .queued ∨ x.stage = .held) then { x with stage := .gone } else x }
+                       if x.proto = some i ∧ (x.stage = .queued ∨ x.stage = .held ∨ x.stage = .heldHalf) then { x with stage := .gone } else x }
 
 def trun (s : TLoop) (ls : List TLabel) : TLoop := ls.foldl tstep s
 
@@ -262,9 +295,11 @@ def tinit (ka : List Bool) (cap : Nat) : TLoop :=
     ka := ka, handles := List.replicate ka.length .dropped }
 
 /-- A substream that keeps the connection busy: an inbound or outbound substream being negotiated
-(whatever protocol it will turn out to be for), or a delivered substream of a keep-alive protocol. -/
+(whatever protocol it will turn out to be for), or a delivered substream of a keep-alive protocol — in the
+protocol's channel, held, or held with its write half shut down. -/
 def Busy (ka : List Bool) (x : Sub) : Prop :=
-  x.stage = .negotiating ∨ (kaOf ka x.proto = true ∧ (x.stage = .queued ∨ x.stage = .held))
+  x.stage = .negotiating ∨
+    (kaOf ka x.proto = true ∧ (x.stage = .queued ∨ x.stage = .held ∨ x.stage = .heldHalf))
 
 instance (ka : List Bool) (x : Sub) : Decidable (Busy ka x) := by unfold Busy; infer_instance
 
